@@ -606,4 +606,14 @@ VARIANTS += [
     fire('r9-swap-braces-whole-store', ['C09'], [(CST, "        self.token_store.replace(self._left_brace, dbl_left_brace)\n        self.token_store.replace(self._right_brace, dbl_right_brace)\n", "        old_left, *_, old_right = self.token_store\n        self.token_store.replace(old_left, dbl_left_brace)\n        self.token_store.replace(old_right, dbl_right_brace)\n")], 'STORE-EDGE'),
     fire('r9-find-spacing-none-hoisted', ['C17'], [(SP, "    while token is not None and not token.raw_text:\n        token = succ(token)\n", "    if token is None:\n        return tokens\n    while not token.raw_text:\n        token = succ(token)\n")], None),
     fire('r9-raw-text-redeclared-read-only', ['C02'], [(BA, "    @property\n    def token_store(self) -> Optional[TokenStore]:\n        return self.store_handle.block.store if self.store_handle else None", "    @property\n    def raw_text(self) -> str:\n        return super().raw_text\n\n    @property\n    def token_store(self) -> Optional[TokenStore]:\n        return self.store_handle.block.store if self.store_handle else None")], 'PROP-SHADOW'),
+    # ------------------------------------------------------------------ round 10: TREE-SEM (tree-building half of ModelBuilder)
+    fire('r10-tree-none-child-skipped', ['C01'], [(PA, "            if child is None:\n                children.append(child)\n", "            if child is None:\n                continue\n")], 'TREE-SEM'),
+    fire('r10-tree-placeholder-after-items', ['C01', 'C05'], [(PA, "        placeholder = self._build_placeholder(_Floating.LEFT)\n        items = [\n            self._build_required_node(child) for child in node.children\n            if not (isinstance(child, lark.Tree) and child.data.endswith('_'))\n        ]\n", "        items = [\n            self._build_required_node(child) for child in node.children\n            if not (isinstance(child, lark.Tree) and child.data.endswith('_'))\n        ]\n        placeholder = self._build_placeholder(_Floating.LEFT)\n")], 'TREE-SEM'),
+    fire('r10-tree-children-reversed-build', ['C01', 'C05'], [(PA, "        return model_type.from_parsed_children(self._token_store, *children)", "        return model_type.from_parsed_children(self._token_store, *sorted(children, key=lambda c: c is None))")], 'TREE-SEM'),
+    fire('r10-tree-repeated-own-store', ['C05'], [(PA, "        return internal.Repeated(self._token_store, items, placeholder)", "        return internal.Repeated(models.TokenStore.from_tokens([]), items, placeholder)")], 'TREE-SEM'),
+    silent('r10-twin-tree-repeated-lazy-items', ['C01', 'C05'], [(PA, "        items = [\n            self._build_required_node(child) for child in node.children\n            if not (isinstance(child, lark.Tree) and child.data.endswith('_'))\n        ]\n", "        items = (\n            self._build_required_node(child) for child in node.children\n            if not (isinstance(child, lark.Tree) and child.data.endswith('_'))\n        )\n")]),
+    fire('r10-tree-dropped-subtree-in-repeated-kept', ['C01', 'C05'], [(PA, "            if not (isinstance(child, lark.Tree) and child.data.endswith('_'))\n        ]", "            if not (isinstance(child, lark.Tree) and child.data.endswith('__'))\n        ]")], None),
+    fire('r10-tree-token-rebuilt-for-model', ['C05'], [(PA, "        if isinstance(node, lark.Token):\n            return self._build_token(node)\n", "        if isinstance(node, lark.Token):\n            self._build_token(node)\n            return models.TOKEN_MODELS[node.type].from_raw_text(node.value)\n")], 'TREE-SEM'),
+    silent('r10-twin-tree-loop-restructured', ['C01', 'C05'], [(PA, "            elif is_tree and child.data.endswith('_'):\n                continue\n            else:\n                children.append(self._build_required_node(child))\n", "            elif not (is_tree and child.data.endswith('_')):\n                children.append(self._build_required_node(child))\n")]),
+    silent('r10-twin-repeated-loop', ['C01', 'C05'], [(PA, "        items = [\n            self._build_required_node(child) for child in node.children\n            if not (isinstance(child, lark.Tree) and child.data.endswith('_'))\n        ]\n", "        items = []\n        for child in node.children:\n            if isinstance(child, lark.Tree) and child.data.endswith('_'):\n                continue\n            items.append(self._build_required_node(child))\n")]),
 ]
